@@ -54,10 +54,13 @@ def enabled_ops(model, E, K, pairs=None, foreign=False):
     if n:
         ops += [("repl", e) for e in E]
     ops.append(("delx",))
+    if foreign:
+        ops.append(("delf",))  # delete with an id that is live in ANOTHER bucket (never existed in this one)
     return ops
 
 
 NEVER_ID = 987654321
+FOREIGN_ID = [None]  # set by the driver: an id that is live in another bucket of the same database
 
 
 def perform(ds, bid, model, op, emb):
@@ -106,6 +109,8 @@ def perform(ds, bid, model, op, emb):
             del exp[target]
         elif kind == "delx":
             b.delete(NEVER_ID)
+        elif kind == "delf":
+            b.delete(FOREIGN_ID[0])
         else:
             raise ValueError(op)
     except Exception as e:  # the property gives no licence to raise on these ops
